@@ -43,8 +43,8 @@ checks = [
      "TLC shows the pairwise resolution rule is order independent and equals shift-else-earliest-production for every competing set and permutation; for grammars with conflicts generated with -a TLC explores the whole product of the real tables with the canonical automaton resolved by that rule; real runs are validated against the resolved canonical machine (verdict and reductions).",
      TRUST, "TLA+ spec (LR1/MC_Resolve/LRProduct/LRTrace) + TLC product reachability + trace validation", "5/C05"),
  chk("C06", "model_checking",
-     "TLC checks on canonical tables of small reduced grammars and ALL inputs up to the bound that a failing parse names the first offending token, runs no action on it and reports exactly the viable continuations (prefix oracle independent of LR); LRProduct shows the real tables are the canonical ones; the error values of real failing runs (token object identity, type, expected set, no later action call) are validated against the driver model.",
-     TRUST, "TLA+ spec (CFG oracle/LR1/LRParse/LRProduct/LRTrace) + TLC model checking + trace validation", "5/C06"),
+     "TLC checks on canonical tables of small reduced grammars and ALL inputs up to the bound that a failing parse names the first offending token, runs no action on it and reports exactly the viable continuations (prefix oracle independent of LR); LRProduct shows the real tables are the canonical ones; the error values of real failing runs (token object identity, type, expected set, no later action call) are validated against the driver model; ErrMsg.tla states how an error value is rendered as text (Error(), String(), Pos.String()), TLC checks that the text shows every expected terminal in order, the position and the lexeme, and its table of texts is replayed on the generated errors/token packages.",
+     TRUST, "TLA+ spec (CFG oracle/LR1/LRParse/LRProduct/LRTrace/ErrMsg) + TLC model checking + trace validation + replay of TLC-computed outcomes", "5/C06"),
  chk("C07", "model_checking",
      "Recovery is modelled as explicit actions (Recover/Skip/Resume/GiveUp/Fail) written from the statement; TLC checks deadlock-freedom, termination, token order and inertness on error-free inputs over canonical tables for all small inputs; LRProduct requires the real recovery flags to mark exactly the states that can shift error; real runs (a panic is an event no action matches) are validated against the model over real and canonical tables.",
      TRUST + " Domain: alternatives that begin with error (F8 is a known finding elsewhere).", "TLA+ spec (LRParse recovery actions/MC_LRParse/LRProduct/LRTrace) + TLC model checking + trace validation", "5/C07"),
